@@ -298,6 +298,10 @@ def analyse_flush(ctx: Ctx, f: FuncInfo, attr: str = "set_messages") -> Flush:
             val_name = tgt.elts[1].id if isinstance(tgt.elts[1], ast.Name) else None
         elif isinstance(tgt, ast.Name):
             key_name = tgt.id
+    elif isinstance(tgt, ast.Name) and isinstance(it, ast.Name) and _record_snapshot(ctx, f, it.id) is not None:
+        # a local snapshot of records built from the buffer's (key, entry) pairs: `for b in pending: send(b.message) ... pop(b.key)`
+        kf, vf = _record_snapshot(ctx, f, it.id)
+        key_name, val_name = f"{tgt.id}.{kf}", f"{tgt.id}.{vf}"
     elif isinstance(tgt, ast.Name):
         key_name = tgt.id
     elif isinstance(tgt, ast.Tuple) and len(tgt.elts) == 2 and all(isinstance(x, ast.Name) for x in tgt.elts) and isinstance(it, ast.Name):
@@ -320,6 +324,34 @@ def analyse_flush(ctx: Ctx, f: FuncInfo, attr: str = "set_messages") -> Flush:
     rem_stmts = {id(_stmt(ctx, f, n)) for n, _k in removal_sites(ctx, f, attr)}
     removes = g.nodes_where(lambda n: (n.kind == "stmt" or (n.kind == "iter" and isinstance(n.ast, (ast.For, ast.AsyncFor)))) and id(n.ast) in rem_stmts)
     return Flush(f, g, lp, key_name, val_name, cont, live, sends, removes)
+
+
+def _record_snapshot(ctx: Ctx, f: FuncInfo, name: str):
+    """(key field, entry field) when the local `name` is `[Rec(k, v) for k, v in <buffer>.items() ...]` with Rec a
+    NamedTuple / dataclass of the repository."""
+    src = _accumulator_comp(ctx, f, name)
+    if src is None:
+        la = ctx.I.local_assigns(f).get(name) or []
+        src = la[0] if len(la) == 1 and isinstance(la[0], ast.expr) else None
+    if not (isinstance(src, (ast.ListComp, ast.GeneratorExp)) and len(src.generators) == 1 and isinstance(src.elt, ast.Call)):
+        return None
+    gen = src.generators[0]
+    if not (isinstance(gen.iter, ast.Call) and isinstance(gen.iter.func, ast.Attribute) and gen.iter.func.attr == "items" and isinstance(gen.target, ast.Tuple) and len(gen.target.elts) == 2 and all(isinstance(x, ast.Name) for x in gen.target.elts)):
+        return None
+    d = ctx.prog.resolve_expr(f.module, src.elt.func) if isinstance(src.elt.func, (ast.Name, ast.Attribute)) else None
+    flds = ctx.I.record_fields(d.obj) if d is not None and d.kind == "class" else None
+    if not flds:
+        return None
+    given = dict(zip(flds, src.elt.args))
+    for k in src.elt.keywords:
+        if k.arg:
+            given[k.arg] = k.value
+    kname, vname = gen.target.elts[0].id, gen.target.elts[1].id
+    kf = [n for n, a in given.items() if isinstance(a, ast.Name) and a.id == kname]
+    vf = [n for n, a in given.items() if isinstance(a, ast.Name) and a.id == vname]
+    if len(kf) == 1 and len(vf) == 1:
+        return kf[0], vf[0]
+    return None
 
 
 def _inside(root: ast.AST, node: ast.AST) -> bool:
